@@ -5,6 +5,7 @@ definitions of `Model/StateFbk.lean` (the ones the theorems of `Props/C11.lean` 
 -/
 import CtrlVerif.Model.StateFbk
 import CtrlVerif.Model.Dt
+import CtrlVerif.Model.Index
 import Mathlib.Logic.Equiv.Fin.Basic
 
 namespace CtrlVerif.StateFbk
@@ -231,6 +232,78 @@ def fbkDyn (dt : Dt) (n m : Nat) (A : Matrix (Fin n) (Fin n) K) (B : Matrix (Fin
       let c := ctrl (isctime dt) C' K'
       pure ⟨q, c, closedLoop A B Cp c⟩
     else .error .badArg
+  else .error .badArg
+
+/-! ### create_statefbk_iosystem with `control_indices` -/
+
+/-- `_process_indices(arg, name, labels, length)` (control/iosys.py): `None` → all indices; an
+`int` `k > 0` → `range(k)` (not clipped: `k > length` gives indices that do not exist),
+`k ≤ 0` → `list(range(length))[k:]`; a `slice` → `list(range(length))[slice]`; a `list` → longer
+than `length` raises, otherwise element by element with names replaced by `labels.index(name)`
+(integers are passed through unchanged: negative or too large entries are left to the caller);
+anything else (`str`, tuple, ndarray, NumPy integer, float) raises `ValueError`. -/
+def processIndices {len : Nat} (labels : Fin len → String) :
+    Option Index.Sel → Except Err (List Int)
+  | none => .ok ((List.range len).map Int.ofNat)
+  | some (.idx k) =>
+    if 0 < k then .ok ((List.range k.toNat).map Int.ofNat)
+    else (Index.sliceList (some k) none none len).map fun l => l.map fun i => (i.val : Int)
+  | some (.slice a b c) => (Index.sliceList a b c len).map fun l => l.map fun i => (i.val : Int)
+  | some (.list l) =>
+    if len < l.length then .error .badArg else l.mapM (Index.parseItem labels)
+  | some (.name _) => .error .badArg
+  | some .bad => .error .badArg
+
+/-- `outputs = [sys.input_labels[i] for i in control_indices]` (Python list indexing: negative
+entries count from the end, `IndexError` outside `-len … len-1`); the controller cannot be
+connected when two of its outputs carry the same name. -/
+def selChannels (mt : Nat) (l : List Int) : Except Err (List (Fin mt)) := do
+  let s ← l.mapM (Index.normIdx mt)
+  if s.Nodup then pure s else .error .badArg
+
+/-- the plant inputs the controller does not drive, in increasing order. -/
+def restChannels (mt : Nat) (s : List (Fin mt)) : List (Fin mt) :=
+  (List.finRange mt).filter fun i => i ∉ s
+
+/-- result of `fbkSelDyn`: number of integrators, driven and free plant inputs, controller,
+closed loop. -/
+structure FbkSel (K : Type) (n mt : Nat) where
+  q : Nat
+  sel : List (Fin mt)
+  rest : List (Fin mt)
+  ctrl : SS (Fin q) ((Fin n ⊕ Fin sel.length) ⊕ Fin n) (Fin sel.length) K
+  cl : SS (Fin n ⊕ Fin q) ((Fin n ⊕ Fin sel.length) ⊕ Fin rest.length) (Fin n ⊕ Fin sel.length) K
+
+/-- the check on `integral_action` (`C.shape[1] != sys_nstates` raises); without it the code uses
+`C = zeros((0, n))`. -/
+def intAction (n : Nat) : Option (DM K) → Except Err (DM K)
+  | none => pure ⟨0, n, 0⟩
+  | some C => if C.c ≠ n then .error .badArg else pure C
+
+/-- controller and closed loop once the driven inputs `s` are known. -/
+def fbkSelBuild (dt : Dt) (n mt : Nat) (A : Matrix (Fin n) (Fin n) K)
+    (B : Matrix (Fin n) (Fin mt) K) (Cp : Matrix (Fin n) (Fin n) K) (Kg Cint : DM K)
+    (s : List (Fin mt)) : Except Err (FbkSel K n mt) :=
+  if h : Cint.c = n ∧ Kg.r = s.length ∧ Kg.c = n + Cint.r then
+    let C' : Matrix (Fin Cint.r) (Fin n) K := Cint.m.submatrix id (Fin.cast h.1.symm)
+    let K' : Matrix (Fin s.length) (Fin n ⊕ Fin Cint.r) K :=
+      (sumRows h.2.2 Kg.mᵀ)ᵀ.submatrix (Fin.cast h.2.1.symm) id
+    let c := ctrl (isctime dt) C' K'
+    .ok ⟨Cint.r, s, restChannels mt s, c, closedLoopSel A B Cp s.get (restChannels mt s).get c⟩
+  else .error .badArg
+
+/-- `create_statefbk_iosystem(sys, K, integral_action=C, control_indices=ci)` for a linear plant
+with `mt` inputs (named `labels`) whose outputs are its `n` states: `_process_indices`, the checks
+on `integral_action` and on the shape of `K` (`len(control_indices) × (n + q)`), the names of the
+controller outputs, then the controller and the closed loop. -/
+def fbkSelDyn (dt : Dt) (n mt : Nat) (A : Matrix (Fin n) (Fin n) K) (B : Matrix (Fin n) (Fin mt) K)
+    (Cp : Matrix (Fin n) (Fin n) K) (labels : Fin mt → String) (ci : Option Index.Sel)
+    (Kg : DM K) (Ci : Option (DM K)) : Except Err (FbkSel K n mt) := do
+  let raw ← processIndices labels ci
+  let Cint ← intAction n Ci
+  if Kg.r = raw.length ∧ Kg.c = n + Cint.r then
+    let s ← selChannels mt raw
+    fbkSelBuild dt n mt A B Cp Kg Cint s
   else .error .badArg
 
 end CtrlVerif.StateFbk
